@@ -407,6 +407,9 @@ def agree_model(c, got, m):
         # the property only demands *an* error for a non-numeric value; which texts the library diagnoses as a
         # FormatException (with a line) rather than another exception is not modelled
         return True
+    if (c["kind"].startswith("trunc:") or c["kind"] == "plus_del") and isinstance(got, dict) and str(got.get("err", "")).startswith("other:"):
+        # a truncated record must raise; the line is constrained only when the library diagnoses it as a format error
+        return True
     if isinstance(got, dict) and isinstance(m, dict) and str(got.get("err", "")).startswith("other:") and m.get("err") == "other":
         return True       # f.read() of a file without a single complete record: "no complete entry" in both
     return core.canon(got) == core.canon(m)
